@@ -680,6 +680,9 @@ func famPattern(o *Out, r R, tier string) {
 	for _, v := range append(append(append([]string{}, originsValidSecure...), originsValidInsecure...), originsPSL...) {
 		emit("valid", "corpus", v)
 	}
+	for _, v := range originsACE {
+		emit("grey", "ace-corpus", v)
+	}
 	// long rejected strings (the error must carry the offending value exactly as supplied, whatever its length)
 	for _, ln := range []int{300, 1023, 1024, 1025, 1100, 2048} {
 		fill := strings.Repeat("a", ln)
